@@ -13,7 +13,7 @@ Between two points neither thread touches state the other one writes (the shared
 should_exit, report.pt_item, omen_guess_num and the thread's liveness).
 input() answers come from a script: '' / 'h' / 'q' / EOF (EOFError) / ERR (ValueError) / BLOCK
 (never returns: a terminal or an open pipe); after the script: BLOCK.  'S!' = an empty line whose
-status print fails once (stderr unusable).
+status print fails once (stderr unusable); 'S!k' = the k-th stderr write of that status report fails.
 """
 import contextlib
 import io
@@ -85,6 +85,29 @@ class Scheduler:
             if self.killing and tid == 1:
                 raise Kill()
             self.state[tid] = 'run'
+
+    def wait_for_lock(self, tid, lock):
+        """The running thread needs `lock`, which is held: it is not enabled until the lock is released."""
+        self.state[tid] = 'blocked'
+        self.waiting = getattr(self, 'waiting', {})
+        self.waiting[tid] = lock
+        others = [t for t in (0, 1) if t != tid and self.state[t] == 'ready']
+        if not others:
+            self.deadlock = 'thread %d waits for a lock held by thread %r (state %s) and no thread can run' % (tid, lock.owner, self.state.get(lock.owner))
+            self.state[tid] = 'run'
+            del self.waiting[tid]
+            raise Deadlock(self.deadlock)
+        self.point(tid, 'lock_wait', self_enabled=False)
+        # resumed: either the lock was released (state set to ready by lock_released, then chosen) or the run is being killed
+        if self.killing and tid == 1:
+            raise Kill()
+        self.state[tid] = 'run'
+
+    def lock_released(self, lock):
+        for t, l in list(getattr(self, 'waiting', {}).items()):
+            if l is lock:
+                del self.waiting[t]
+                self.state[t] = 'ready'
 
     def block_forever(self, tid):
         """The running thread blocks and never becomes enabled again."""
@@ -158,6 +181,58 @@ class SchedThread:
         pass
 
 
+class Deadlock(BaseException):
+    """Raised in the running thread when it has to wait for a lock and no other thread can ever run again."""
+
+
+class SchedLock:
+    """threading.Lock / RLock as the scheduler sees it: acquire and release are scheduling points, waiting is visible (a thread that waits is not
+    enabled), and a wait that nobody can end is a deadlock of the execution - not of the harness."""
+
+    def __init__(self, sched, reentrant=False):
+        self.s, self.reentrant = sched, reentrant
+        self.owner = None
+        self.depth = 0
+
+    def _tid(self):
+        return 1 if (self.s.kb is not None and real_threading.current_thread() is self.s.kb) else 0
+
+    def acquire(self, blocking=True, timeout=-1):
+        tid = self._tid()
+        if not self.s.killing:
+            self.s.point(tid, 'lock_acquire')
+        if self.reentrant and self.owner == tid:
+            self.depth += 1
+            return True
+        while self.owner is not None:
+            if not blocking or self.s.killing:
+                return False
+            self.s.wait_for_lock(tid, self)
+        self.owner = tid
+        self.depth = 1
+        return True
+
+    def release(self):
+        tid = self._tid()
+        if self.owner is None:
+            raise RuntimeError('release unlocked lock')
+        self.depth -= 1
+        if self.depth > 0:
+            return
+        self.owner = None
+        self.s.lock_released(self)
+        if not self.s.killing:
+            self.s.point(tid, 'lock_release')
+
+    def locked(self):
+        return self.owner is not None
+
+    __enter__ = acquire
+
+    def __exit__(self, *a):
+        self.release()
+
+
 class _MainThreadShim:
     def __init__(self, sched):
         self.sched = sched
@@ -179,8 +254,30 @@ class _ThreadingShim:
     def main_thread(self):
         return _MainThreadShim(self._s)
 
+    def Lock(self):
+        return SchedLock(self._s)
+
+    def RLock(self):
+        return SchedLock(self._s, reentrant=True)
+
     def __getattr__(self, name):
+        if name in ('Condition', 'Event', 'Semaphore', 'BoundedSemaphore', 'Barrier', 'Timer'):
+            raise RuntimeError('harness: the code under test uses threading.%s, which the scheduler does not model' % name)
         return getattr(real_threading, name)
+
+
+def install_threading(shim):
+    """Every lib_guesser module sees the scheduler's threading: locks created by the code under test are scheduler locks."""
+    for name, mod in list(sys.modules.items()):
+        if not (name == 'pcfg_guesser' or name.startswith('lib_guesser')) or mod is None:
+            continue
+        for attr, val in list(vars(mod).items()):
+            if val is real_threading:
+                setattr(mod, attr, shim)
+            elif val is real_threading.Lock:
+                setattr(mod, attr, shim.Lock)
+            elif val is real_threading.RLock:
+                setattr(mod, attr, shim.RLock)
 
 
 class _TimeShim:
@@ -212,11 +309,18 @@ def run_scheduled(tdir, argv, script, choices, session='default_run'):
     o.status_calls = 0
     o.thread_exc = None
     nprinted = [0]
+    fail_status = [0]      # k of a pending 'S!k' answer
+    armed = [0]            # stderr writes left until the failure, while a status report is being printed
     class _ErrProxy(io.StringIO):
         # every stderr write of the keyboard thread is a scheduling point (real writes release the GIL)
         def write(self, text):
             if text not in ('', '\n') and sc.kb is not None and real_threading.current_thread() is sc.kb and not sc.killing:
                 sc.point(1, 'stderr_write')
+                if armed[0] > 0:
+                    # 'S!k': stderr becomes unusable at the k-th write of the status report (inside print_status, after whatever it has set up by then)
+                    armed[0] -= 1
+                    if armed[0] == 0:
+                        raise OSError('stderr unusable')
             return io.StringIO.write(self, text)
     out, err = io.StringIO(), _ErrProxy()
     old_argv = sys.argv
@@ -232,9 +336,8 @@ def run_scheduled(tdir, argv, script, choices, session='default_run'):
                 gm = sys.modules['lib_guesser.pcfg_grammar']
                 sr = sys.modules['lib_guesser.status_report']
                 cs.threading = shim
+                install_threading(shim)
                 cs.time = _TimeShim(sc, real_time)
-                fail_status = [False]
-
                 def fake_input(*a):
                     if o.consumed and o.consumed[-1] == 'q' and o.exit_write is None:
                         o.q_dropped = True
@@ -249,8 +352,8 @@ def run_scheduled(tdir, argv, script, choices, session='default_run'):
                         raise EOFError('EOF when reading a line')
                     if a0 == 'ERR':
                         raise ValueError('I/O operation on closed file.')
-                    if a0 == 'S!':
-                        fail_status[0] = True
+                    if a0.startswith('S!'):
+                        fail_status[0] = int(a0[2:] or 1)
                         return ''
                     return a0
                 cs.input = fake_input
@@ -302,15 +405,22 @@ def run_scheduled(tdir, argv, script, choices, session='default_run'):
                     sc.point(1, 'status')
                     o.status_calls += 1
                     if fail_status[0]:
-                        fail_status[0] = False
-                        raise OSError('stderr unusable')
-                    return orig_status(self, pcfg)
+                        armed[0], fail_status[0] = fail_status[0], 0
+                    try:
+                        return orig_status(self, pcfg)
+                    finally:
+                        if armed[0] > 0:
+                            # the report made fewer writes than k (e.g. nothing to report yet): the failure still happens, at the end of the call
+                            armed[0] = 0
+                            raise OSError('stderr unusable')
                 SR.print_status = print_status
                 pg.main()
             except SystemExit as e:
                 exc = 'SystemExit(%r)' % (e.code,)
             except Kill:
                 exc = 'Kill leaked into main'
+            except Deadlock as e:
+                exc = 'Deadlock: %s' % (e,)
             except BaseException:
                 import traceback
                 exc = traceback.format_exc()
